@@ -283,12 +283,18 @@ structure Sys where
   threads : List Thread
 deriving Repr
 
-/-- actions of a concurrent run: thread `i` runs its next segment; the saver dequeues; the saver saves -/
+/-- actions of a concurrent run: thread `i` runs its next segment; the saver dequeues; the saver saves;
+the store file is edited from outside -/
 inductive Act where
   | thread (i : Nat)
   | dequeue
   | save
+  | edit (d : Doc)     -- somebody else replaces the store file (atomically, e.g. by rename)
 deriving Repr
+
+def Act.isEdit : Act → Bool
+  | .edit _ => true
+  | _ => false
 
 def Sys.act (H : Key → Hash) (s : Sys) : Act → Sys
   | .thread i =>
@@ -297,6 +303,7 @@ def Sys.act (H : Key → Hash) (s : Sys) : Act → Sys
     | some t => let (st', t') := seg H s.st t; { st := st', threads := s.threads.set i t' }
   | .dequeue => { s with st := dequeue s.st }
   | .save => { s with st := save s.st }
+  | .edit d => { s with st := { s.st with file := d } }
 
 def Sys.run (H : Key → Hash) (s : Sys) (as : List Act) : Sys := as.foldl (Sys.act H) s
 
